@@ -68,12 +68,18 @@ impl TypeChecker {
         }
 
         // Enforce required fields (those without defaults) are present.
-        for (field_name, info) in fields {
-            if !info.has_default && !provided.contains_key(field_name.as_str()) {
-                self.errors.push(errors::missing_required_constructor_field(
-                    type_name, field_name, call_span,
-                ));
-            }
+        // `fields` is a HashMap: report the missing ones sorted by name so the diagnostics come out in the same
+        // order on every run.
+        let mut missing: Vec<&String> = fields
+            .iter()
+            .filter(|(field_name, info)| !info.has_default && !provided.contains_key(field_name.as_str()))
+            .map(|(field_name, _)| field_name)
+            .collect();
+        missing.sort();
+        for field_name in missing {
+            self.errors.push(errors::missing_required_constructor_field(
+                type_name, field_name, call_span,
+            ));
         }
     }
 
